@@ -1,6 +1,7 @@
 import Firefly.Util
 import Firefly.Model.AmlParser
 import Firefly.Model.AmlNs
+import Firefly.Model.AmlShapes
 /-!
 Shared by the C11 and C12 replay drivers (core Lean only): table construction, edit scripts,
 the canonical tree dump (textually identical to `amlRow`/`amlObservation` of the Go harness),
@@ -207,10 +208,14 @@ def printKids (t : ObjectTree) : Nat → Nat → Res Unit
     printKids t f (← t.obj a).nextSiblingIndex
 end
 
+/-- fuel of the print walk: one frame per level and per sibling, at most `size + 1` levels of at most `size`
+siblings (`print_total` proves it is enough on every well-formed pool) -/
+def printFuel (t : ObjectTree) : Nat := (t.pool.size + 2) * (t.pool.size + 2)
+
 /-- `PrettyPrint(w)`: "ok" | "panic" (| "overflow" if the walk does not end: only on a non-WF tree) -/
 def printOutcome (t : ObjectTree) : String :=
   if t.pool.size = 0 then "ok" else
-  match printWalk t (2 * t.pool.size + 4) 0 with
+  match printWalk t (printFuel t) 0 with
   | .ok _ => "ok"
   | .error .panic => "panic"
   | .error .outOfFuel => "overflow"
